@@ -261,6 +261,16 @@ def modal_args(S, *, wide=True, binary=(AND, OR, MC), paired_max=1):
         for p_ in (LMb | LMc, (LMb & trap) | (LMc & trap), LMb | O.Possibility(Cc), O.Possibility(B) | LMc):
             add(arg(Dd, (p_,)))
             add(arg(Dd, (p_, O.Possibility(A))))
+            add(arg(Dd, (p_, O.Necessity(A))))
+            add(arg(Dd, (O.Necessity(A), p_)))
+    # unary prefixes of length three over one letter (nested modalities: chains of worlds), against short conclusions
+    pre3 = build((NEG,) + MODAL, (), (A,), 3)
+    for p in pre3:
+        if not modal(p):
+            continue
+        add(arg(p))
+        for q in (A, O.Possibility(A), O.Necessity(A)):
+            add(arg(q, (p,)))
     return out
 
 def fo_args(S, *, ident=True, wide=True):
@@ -308,6 +318,15 @@ def fo_args(S, *, ident=True, wide=True):
         for l1, l2 in itertools.permutations(l3, 2):
             for q in q1:
                 add(arg(A, (l1, l2, q)))
+        # a binary predicate: quantified premises that themselves carry a constant, nested universals (instantiation bookkeeping)
+        Rxa = Predicated(R, (x, a)); Rax = Predicated(R, (a, x)); Rxy = Predicated(R, (x, y)); Rxx = Predicated(R, (x, x))
+        U, E = Quantifier.Universal, Quantifier.Existential
+        bpool = [Quantified(U, x, Rxa), Quantified(U, x, Rax), Quantified(U, x, Quantified(U, y, Rxy)), Quantified(U, x, ~Rxx),
+                 Quantified(E, x, Rxa), Predicated(F, (a,)), Predicated(R, (a, b))]
+        bconcl = [Predicated(R, (a, a)), A, Quantified(E, y, Predicated(R, (y, y)))] + ([] if small_mode else [Predicated(R, (b, a))])
+        for p, q in itertools.permutations(bpool, 2):
+            for r in bconcl:
+                add(arg(r, (p, q)))
         if ident:
             # an identity beside two predications (substitution order / blocking shapes)
             idents = [Predicated(IDENT, (a, b)), Predicated(IDENT, (b, a))]
